@@ -136,6 +136,13 @@ def check(mod, tier: str, seed: int, *, replay: str | None = None, report_as: st
         # ---------------------------------------------------------------- executions (G) + (T)
         if replay is None:
             cases = mod.cases(tier, seed)
+            # the thorough tier of the cheaper properties draws its generated cases from further seeds as well
+            if tier == "thorough":
+                have = {case_key(c) for c in cases}
+                for k in range(1, 1 + int(getattr(mod, "THOROUGH_EXTRA_SEEDS", 0))):
+                    for c in mod.cases(tier, seed + 1000 * k):
+                        if case_key(c) not in have:
+                            have.add(case_key(c)); cases.append(c)
         else:
             rep = json.loads(pathlib.Path(replay).read_text())
             cases = [rep["case"]]
